@@ -39,6 +39,7 @@ type AppArgs struct {
 	TimeoutMs  int64             `json:"timeout_ms,omitempty"`
 	TaskGroups []TaskGroup       `json:"tg,omitempty"`
 	NilUgi     bool              `json:"nilugi,omitempty"`
+	PhAsk      Res               `json:"phask,omitempty"` // explicit placeholder total (recovery)
 }
 
 type TaskGroup struct {
@@ -103,6 +104,9 @@ func (a *AppArgs) toSI() *si.AddApplicationRequest {
 			for i := 0; i < tg.Count; i++ {
 				total.AddTo(tg.Res)
 			}
+		}
+		if a.PhAsk != nil {
+			total = a.PhAsk
 		}
 		req.PlaceholderAsk = total.ToSI()
 	}
